@@ -168,6 +168,64 @@ def run_adv(run, P, only=None):
         run.stats['stream_solver_steps'] += ctx.steps
 
 
+# phase transitions of the stream readers: (function, field whose assignment starts the new phase, value test, progress counter
+# that the new phase uses as transfer offset).  On every path from the transition to the next transfer at that counter the
+# counter is assigned (initialised for the new unit of data).
+PHASE_INIT = (
+    ('coap_ws_read', 'all_hdr_in', lambda r: const_int(r) == 1, 'data_ofs', 'a new WebSocket frame (header complete)'),
+    ('coap_read_session', 'partial_pdu', lambda r: isinstance(strip(r), dict) and strip(r).get('k') == 'call', 'partial_read', 'a new TCP message body'),
+)
+
+
+def run_phase(run, P):
+    run.rule('R-STREAM-ADV')
+    for fname, pfield, ptest, counter, what in PHASE_INIT:
+        if not P.has(fname):
+            if run.fixture_mode:
+                continue
+            run.require(False, 'anchor function %s() of R-STREAM-ADV not found' % fname)
+        f = P.func(fname)
+        seen = {'phase': 0, 'xfer': 0}
+
+        def xfer_at_counter(t):
+            """the event transfers bytes to base + counter"""
+            if t.get('k') == 'call' and t.get('fn') == 'memcpy' and len(t['a']) == 3:
+                c, fld = counter_in(t['a'][0])
+                return fld == counter
+            if t.get('k') == 'call' and t.get('fn') is None and len(t['a']) == 3:
+                from core.prog import callee_field
+                if callee_field(t) == 'l_read':
+                    c, fld = counter_in(t['a'][1])
+                    return fld == counter
+            return False
+
+        def on_event(ev, env, ctx):
+            t = ev['e']
+            if t.get('k') == 'asg':
+                l = strip(t['l'])
+                if isinstance(l, dict) and l.get('k') == 'mem' and l['f'] == pfield and t.get('op') == '=' and ptest(t['r']):
+                    seen['phase'] += 1
+                    e = apply_generic(ev, env, None).copy()
+                    e.ts['fresh'] = ev['loc']
+                    return [e]
+                if isinstance(l, dict) and l.get('k') == 'mem' and l['f'] == counter and env.ts.get('fresh'):
+                    e = apply_generic(ev, env, None).copy()
+                    del e.ts['fresh']
+                    return [e]
+            if xfer_at_counter(t):
+                seen['xfer'] += 1
+                ok = not env.ts.get('fresh')
+                run.oblige('R-STREAM-ADV', ok, '%s:%s-initialised-for-new-phase' % (fname, counter))
+                if not ok:
+                    run.violation('R-STREAM-ADV', fname, ev['loc'], 'stale-offset:%s' % counter,
+                                  'bytes are transferred to buffer + %s on a path that started %s (%s) without assigning %s: the offset left over from the '
+                                  'previous unit is used, so the message is garbled when the read ends exactly at this boundary' % (counter, what, env.ts['fresh'].rsplit('/', 1)[-1], counter), ctx.path())
+            return None
+        solve(f, Env(), on_event, None, None, None, key_fn=lambda e: (e.ts.get('fresh'),), max_envs=64)
+        run.instance('R-STREAM-ADV', '%s: phase entry %s -> %s initialised before use (%d transition visit(s), %d transfer visit(s))' % (fname, pfield, counter, seen['phase'], seen['xfer']))
+        run.require((seen['phase'] > 0 and seen['xfer'] > 0) or run.fixture_mode, 'R-STREAM-ADV: phase transition %s / transfer at %s not found in %s()' % (pfield, counter, fname))
+
+
 def run_cap(run, P):
     run.rule('R-STREAM-CAP')
     for fname, (kind, what) in sorted(CAP_SOURCES.items()):
